@@ -79,6 +79,8 @@ func init() {
 	w := &zoo.FNode{FP: &zoo.Inner{}, FM: map[string]int32{"a": 1}, FS: []int32{1}, FS2: []string{"a"}}
 	w.A = w
 	w.Ls = []*zoo.FNode{w}
+	w.MLs = map[string][]*zoo.FNode{"a": {w}}
+	w.LLs = [][]*zoo.FNode{{w}}
 	w.Mp = map[string]*zoo.FNode{"a": w}
 	c04TM, c04NM = hessian.ExtractTypeNameMap(w)
 	c04ClassNames = map[string]string{}
@@ -200,6 +202,16 @@ func hasSharingOrCycle(root *zoo.FNode) bool {
 		for _, x := range n.Ls {
 			walk(x)
 		}
+		for _, l := range n.MLs {
+			for _, x := range l {
+				walk(x)
+			}
+		}
+		for _, l := range n.LLs {
+			for _, x := range l {
+				walk(x)
+			}
+		}
 		for _, x := range n.Mp {
 			walk(x)
 		}
@@ -291,6 +303,7 @@ func TestC04(t *testing.T) {
 			return nodes[d-1]
 		}
 		var sb strings.Builder
+		contained := make([]bool, n) // nodes whose Ls also sits inside one of their own containers
 		for i, nd := range nodes {
 			nd.A, nd.B = pick("A"), pick("B")
 			switch rapid.IntRange(0, 5).Draw(rt, "lsKind") {
@@ -298,6 +311,9 @@ func TestC04(t *testing.T) {
 			case 2:
 				if i > 0 {
 					j := rapid.IntRange(0, i-1).Draw(rt, "shareLs")
+					if contained[j] {
+						break
+					}
 					nd.Ls = nodes[j].Ls // the same slice in two nodes
 					fmt.Fprintf(&sb, "n%d.Ls==n%d.Ls ", i, j)
 					if len(nd.Ls) > 1 && rapid.Bool().Draw(rt, "prefixOnly") {
@@ -313,10 +329,34 @@ func TestC04(t *testing.T) {
 					nd.Ls[x] = pick("lsElem")
 				}
 			}
+			// a slice of this node alone, met first as a map value / as an element of a list of lists and then in
+			// the plain slice field (a slice shared with other nodes is kept out of containers: a reference to a
+			// list that is still being read cannot become a map value or list element in Go, the decoder refuses
+			// such a stream with an error, and the statement speaks of objects, not of slice values)
+			if k := rapid.IntRange(0, 7).Draw(rt, "contKind"); k <= 2 {
+				own := make([]*zoo.FNode, rapid.IntRange(1, 3).Draw(rt, "ownLen"))
+				for x := range own {
+					own[x] = pick("ownElem")
+				}
+				nd.Ls = own
+				contained[i] = true
+				switch k {
+				case 0:
+					nd.MLs = map[string][]*zoo.FNode{"own": own}
+					fmt.Fprintf(&sb, "n%d.MLs[own]==n%d.Ls ", i, i)
+				case 1:
+					nd.LLs = [][]*zoo.FNode{own, {pick("otherElem")}, own}
+					fmt.Fprintf(&sb, "n%d.LLs[0]==n%d.LLs[2]==n%d.Ls ", i, i, i)
+				default:
+					nd.MLs = map[string][]*zoo.FNode{"a": own}
+					nd.LLs = [][]*zoo.FNode{own}
+					fmt.Fprintf(&sb, "n%d.MLs[a]==n%d.LLs[0]==n%d.Ls ", i, i, i)
+				}
+			}
 			if i > 0 && rapid.IntRange(0, 5).Draw(rt, "plsKind") == 0 {
 				// a pointer to (a prefix of) another node's slice
 				j := rapid.IntRange(0, i-1).Draw(rt, "plsOf")
-				if src := nodes[j].Ls; len(src) > 0 {
+				if src := nodes[j].Ls; len(src) > 0 && !contained[j] {
 					sl := src[:rapid.IntRange(1, len(src)).Draw(rt, "plsLen")]
 					nd.PLs = &sl
 					fmt.Fprintf(&sb, "n%d.PLs->n%d.Ls[:%d] ", i, j, len(sl))
